@@ -35,6 +35,8 @@ RULE = ("scenarios = 0-8 expectations over <=3 function names, <=3 parameter nam
         "parameters - identical classes and conflicting siblings -, counts > 1, calls with extra parameters / extra output "
         "parameters, calls lacking a required parameter, duplicated and dropped calls), ambig (ambiguous sets, repeated "
         "parameter names, late strictOrder: model comparison only unless the oracle finds them inside the hypothesis), "
+        "plugin (2-5 scripted tests per case run in a private TestRegistry with the real MockSupportPlugin, no checkExpectations / "
+        "clear of their own, some failing by a plain FAIL before / inside / after the scenario; verdict per test from the run), "
         "malformed; a dedicated family of small cases walks through every ordered pair of the six integer types with values "
         "from the boundary lattice that are equal, or congruent modulo 2^32 / 2^64 but different as integers; non-trivial = at least one expectation and one call; distinct = distinct op sequences")
 
@@ -427,6 +429,35 @@ def gen_int_case(rng):
     return ops + ["check -"]
 
 
+def gen_test_body(rng):
+    """the body of one scripted test: a scenario WITHOUT its own checkExpectations / clear (the plugin's job)"""
+    scopes = ["-"] if rng.random() < 0.75 else ["-", "s1"]
+    ops = [l for l in round_ops(rng, scopes, "plain") if not l.startswith(("check ", "clear "))]
+    if rng.random() < 0.4:
+        idx = [i for i, l in enumerate(ops) if l.startswith("call ")]
+        if idx:
+            ops.pop(rng.choice(idx))          # an expectation stays unfulfilled: only the end-of-test check sees it
+    return ops
+
+
+def gen_plugin_case(rng):
+    """2-5 scripted tests run in a private registry with the real MockSupportPlugin; some tests fail for an
+    unrelated reason (a plain FAIL) before, inside or after their scenario"""
+    ops = ["plugin"]
+    for t in range(rng.randint(2, 5)):
+        ops.append("test t%d" % (t + 1))
+        body = gen_test_body(rng)
+        r = rng.random()
+        if r < 0.12:
+            body = ["fail"] + body
+        elif r < 0.30:
+            body = body + ["fail"]
+        elif r < 0.35 and body:
+            body.insert(rng.randint(0, len(body)), "fail")
+        ops += body
+    return ops
+
+
 def gen_malformed(rng):
     ops = gen_case(rng, "plain")
     junk = ["call", "call -", "expect - x f0", "expect - no f0 p:p0:i:1", "call - f0 r p:p0:i:1", "call - f0 p:p0:z:1",
@@ -449,14 +480,16 @@ def generate(rng, tier):
         out.append(("iop", gen_case(rng, "iop")))
     for _ in range(n // 3):
         out.append(("ambig", gen_case(rng, "ambig")))
+    for _ in range(n // 4):
+        out.append(("plugin", gen_plugin_case(rng)))
     for _ in range(n // 30):
         out.append(("malformed", gen_malformed(rng)))
     return out
 
 
 def translate(ctx):
-    from translate import extract_mockmsgs
-    return extract_mockmsgs.run()
+    from translate import extract_mockmsgs, extract_mockplugin
+    return (extract_mockmsgs.run() or []) + (extract_mockplugin.run() or [])
 
 
 def nontrivial(r):
@@ -494,7 +527,24 @@ def observe(r, rep):
             rep.count("obs." + l.replace(" ", "."))
     if not failed:
         rep.count("verdict.pass")
-    if tag in ("plain", "iop"):
+    if tag == "plugin":
+        tests = [l for l in r.impl if l.startswith("verdict ")]
+        rep.count("plugin.tests", len(tests))
+        rep.count("plugin.tests_failed", sum(1 for l in tests if l == "verdict fail"))
+        seen_fail = False
+        for i, l in enumerate(r.impl):
+            if l == "> endtest":
+                j = i + 1
+                fails = []
+                while j < len(r.impl) and not r.impl[j].startswith(">"):
+                    if r.impl[j].startswith("fail "):
+                        fails.append(r.impl[j])
+                    j += 1
+                if fails and seen_fail:
+                    rep.count("plugin.end_of_test_failure_after_an_earlier_failed_test")
+            if l == "verdict fail":
+                seen_fail = True
+    if tag in ("plain", "iop", "plugin"):
         rep.count("oracle.judged." + tag)
     if tag == "iop" and any(" iop" in l or l.endswith("iop") for l in r.ops if l.startswith("expect ")):
         rep.count("feature.ignoreOtherParameters")
@@ -538,7 +588,12 @@ LEVEL_TEXT = ("Machine-checked Lean 4 theorems (lean/CppUModel/Props/C08.lean) o
               "ignoreOtherCalls skipping unknown functions, give the verdict of the eager run; hence lazy_*verdict* theorems and "
               "ioc_verdict_iff_multiset_eq), no_stale_matching_state, checkExpectations_over_scopes / expectedCallsLeft_over_scopes "
               "/ unfulfilled_in_any_scope_fails (an unfulfilled expectation in ANY scope fails the global check), plus lemmas that "
-              "expectNCalls produces the hypotheses and that the diagnosis texts are the regenerated ones. The model is tied to "
+              "expectNCalls produces the hypotheses and that the diagnosis texts are the regenerated ones; MockSupportPlugin: "
+              "plugin_verdict_is_scenario_verdict (under the plugin a test's failures are those of its own scenario on a fresh "
+              "mock followed, unless the test failed itself, by checkExpectations - independent of earlier tests), "
+              "plugin_guard_is_own_test (the regenerated guard of postTestAction is !test.hasFailed()); in plugin mode the "
+              "harness runs 2-5 scripted tests per case in a private TestRegistry with the real MockSupportPlugin and takes "
+              "each test's verdict from the run. The model is tied to "
               "the code on every run by a differential harness over generated scenarios (real mock()/mock(scope) API, recording "
               "reporter, ASan/UBSan); the implementation's own observations (verdict, first line of the failure, returned values, "
               "output bytes, expectedCallsLeft) are judged by an independent textbook oracle in the plain and in the "
